@@ -30,6 +30,12 @@ CHECK = {
              quick={"checks": 4, "shards": 1, "cap": 600},
              thorough={"checks": 6, "shards": 8, "cap": 2400},
              no_ulimit=True),
+        unit("long-window", "raft", ["raft/c09_replicas_test.go", "raft/c09_busysender_test.go", "raft/c09_longwindow_test.go"], "^TestVerif_C09_LongWindow$",
+             quick={"checks": 250, "shards": 1, "cap": 600},
+             thorough={"checks": 2500, "shards": 16, "cap": 2400},
+             no_ulimit=True,
+             env={"BAO_RAFT_DISABLE_MAP_POPULATE": "1"},
+             floors={"long-window": {"nontrivial": 0.08}}),
         unit("snapshot-busy-sender", "raft", ["raft/c09_replicas_test.go", "raft/c09_busysender_test.go"], "^TestVerif_C09_BusySender$",
              quick={"checks": 150, "shards": 1, "cap": 600, "gomaxprocs": 4},
              thorough={"checks": 1500, "shards": 8, "cap": 2400, "gomaxprocs": 2},
